@@ -4,17 +4,24 @@
 //! Fault injection points, only compiled with the `verif-hooks` feature (off by default).
 //!
 //! A plan is read once from the environment variable `CLOCKBOUND_VERIF_FAILPOINT`, formatted as
-//! `<site>:<hit>:<action>` where `action` is `panic` or `return`. On the `hit`-th time execution
-//! reaches `site`, the calling thread panics, or `hit()` returns true and the caller returns from
-//! its function. Without the variable every failpoint is inert.
+//! `<site>:<hit>:<action>` where `action` is `panic`, `return` or `stall<ms>`. On the `hit`-th time
+//! execution reaches `site`, the calling thread panics, or `hit()` returns true and the caller
+//! returns from its function, or the thread sleeps for `<ms>` milliseconds and then carries on.
+//! Without the variable every failpoint is inert.
 
 use std::collections::HashMap;
 use std::sync::Mutex;
 
+enum Action {
+    Panic,
+    Return,
+    Stall(u64),
+}
+
 struct Plan {
     site: String,
     hit: u64,
-    panic: bool,
+    action: Action,
 }
 
 lazy_static::lazy_static! {
@@ -23,12 +30,12 @@ lazy_static::lazy_static! {
         let mut parts = spec.split(':');
         let site = parts.next()?.to_string();
         let hit = parts.next()?.parse::<u64>().ok()?;
-        let panic = match parts.next()? {
-            "panic" => true,
-            "return" => false,
-            _ => return None,
+        let action = match parts.next()? {
+            "panic" => Action::Panic,
+            "return" => Action::Return,
+            stall => Action::Stall(stall.strip_prefix("stall")?.parse::<u64>().ok()?),
         };
-        Some(Plan { site, hit, panic })
+        Some(Plan { site, hit, action })
     };
     static ref COUNTS: Mutex<HashMap<&'static str, u64>> = Mutex::new(HashMap::new());
 }
@@ -58,10 +65,19 @@ pub fn hit(site: &'static str) -> bool {
     if count != plan.hit {
         return false;
     }
-    let action = if plan.panic { "panic" } else { "return" };
-    eprintln!("VERIF-FAILPOINT fired {} {} {}", site, action, monotonic_ns());
-    if plan.panic {
-        panic!("verif failpoint {}", site);
+    match plan.action {
+        Action::Panic => {
+            eprintln!("VERIF-FAILPOINT fired {} panic {}", site, monotonic_ns());
+            panic!("verif failpoint {}", site);
+        }
+        Action::Return => {
+            eprintln!("VERIF-FAILPOINT fired {} return {}", site, monotonic_ns());
+            true
+        }
+        Action::Stall(ms) => {
+            eprintln!("VERIF-FAILPOINT stall {} {} ms {}", site, ms, monotonic_ns());
+            std::thread::sleep(std::time::Duration::from_millis(ms));
+            false
+        }
     }
-    true
 }
